@@ -585,6 +585,15 @@ Qed.
 Lemma inuse_list_nodup : forall A, NoDup (inuse_list A).
 Proof. intros. unfold inuse_list. apply NoDup_filter. apply seq_NoDup. Qed.
 
+Lemma nodup_snoc : forall (l : list nat) x, NoDup l -> ~ In x l -> NoDup (l ++ [x]).
+Proof.
+  induction l as [|a l IH]; simpl; intros x Hn Hx.
+  - repeat constructor. auto.
+  - inversion Hn; subst. constructor.
+    + rewrite in_app_iff; simpl. intuition.
+    + apply IH; auto.
+Qed.
+
 Lemma nodup_tmp_of : forall r, NoDup (tmp_of r).
 Proof. destruct r; simpl; repeat constructor; auto. Qed.
 Lemma in_tmp_of : forall r u, In u (tmp_of r) <-> r = RTmp u.
@@ -770,18 +779,16 @@ Proof.
       3:{ apply triple_one. intros s I HB.
           apply (step_IOp O d (RTmp ft :: rs) (tmps_of rs ++ [ft]) s (fun u => (L u \/ u = ft) \/ In u (tmps_of rs))); auto.
           - intros t [Ht|Ht]; [injection Ht as <-; auto|]. right. apply in_tmps_of; auto.
-          - apply NoDup_app_remove_l with (l := []). simpl.
-            rewrite <- (rev_involutive (tmps_of rs ++ [ft])). apply NoDup_rev. rewrite rev_app_distr. simpl.
-            constructor; [rewrite <- in_rev; auto|apply NoDup_rev; auto].
+          - apply nodup_snoc; auto.
           - intros t Ht. apply in_app_iff in Ht. destruct Ht as [Ht|[<-|[]]]; auto.
-          - intros [[H|H]|H]; auto. apply Nd1; auto. }
+          - intros [[H|H]|H]; auto; try (apply Nd1; auto). }
       2:{ intros u [H|H]; [apply U4; auto|subst; apply U4; auto]. }
       simpl. intros u. rewrite in_app_iff. simpl. split.
-      * intros [[[[H|H]|H] H']|H]; auto; try tauto. subst; auto.
+      * intros [[[[H|H]|H] H']|H]; auto; try tauto; subst; try tauto; auto.
       * intros [H|H]; [|injection H as <-; auto]. left. split; auto.
         intros [Hx|[Hx|[]]].
         -- apply (Dj _ Hx). apply U4. auto.
-        -- subst. auto.
+        -- subst. apply Nft. auto.
   - (* ENil *) intros A c rs A' H W. injection H as <- <- <-. simpl. split; [auto|]. split; [|split; [|split]].
     + intros u; tauto.
     + constructor.
@@ -794,12 +801,148 @@ Proof.
     destruct (IHes _ _ _ _ G2 W1) as (W2 & U2 & Nd & Dj & T2).
     split; auto. simpl. split; [|split; [|split]].
     + intros u. rewrite U2, U1, in_app_iff, in_tmp_of. tauto.
-    + apply NoDup_app_remove_l with (l := []). simpl.
-      destruct r; simpl; auto. constructor; auto. intro Hx. apply (Dj _ Hx). apply U1. auto.
+    + destruct r; simpl; auto. constructor; auto. intro Hx. apply (Dj _ Hx). apply U1. auto.
     + intros u Hu. apply in_app_iff in Hu. destruct Hu as [Hu|Hu].
       * apply in_tmp_of in Hu. auto.
       * intro. apply (Dj _ Hu). apply U1. auto.
     + intros O L HL. eapply triple_ext; [|eapply triple_app; [apply T1; auto|apply T2]].
       * simpl. intros u. rewrite in_app_iff, in_tmp_of. tauto.
       * intros u [H|H]; apply U1; auto.
+Qed.
+
+(* ---------- statements ---------- *)
+Lemma cseq_exec : forall O fuel c k s,
+  exec O fuel (cseq c k) s = match run O c s with Norm s' => exec O fuel k s' | r => r end.
+Proof.
+  induction c as [|i c IH]; simpl; intros; auto. destruct (step O i s); simpl; auto.
+Qed.
+
+Lemma run_decrefs_eq : forall O ts s, run O (map IDecref ts) s = decref_all ts s.
+Proof.
+  induction ts as [|t ts IH]; simpl; intros; auto.
+  destruct (decref_clear t s); simpl; auto.
+Qed.
+
+Definition sspec (O : orc) (fuel : nat) (inl : bool) (c : code) (L : nat -> Prop) : Prop :=
+  forall s, Inv s -> B L s ->
+    match exec O fuel c s with
+    | Norm s' => Inv s' /\ B L s'
+    | Brk s' | Cnt s' => inl = true /\ Inv s' /\ B L s'
+    | Err s' => Inv s' /\ res s' = None
+    | Ret s' => Inv s' /\ BT (fun _ => False) s'
+    | Stuck _ => False
+    | Fuel => True
+    end.
+
+Lemma sspec_ext : forall O fuel inl c (L L' : nat -> Prop), (forall u, L u <-> L' u) ->
+  sspec O fuel inl c L -> sspec O fuel inl c L'.
+Proof.
+  intros O fuel inl c L L' H S s I HB.
+  assert (HB' : B L s) by (eapply B_ext; [|eauto]; intros; symmetry; auto).
+  specialize (S s I HB'). destruct (exec O fuel c s); auto.
+  - destruct S; split; auto. eapply B_ext; eauto.
+  - destruct S as (a & b & c0); repeat split; auto; eapply B_ext; eauto.
+  - destruct S as (a & b & c0); repeat split; auto; eapply B_ext; eauto.
+Qed.
+
+(* a straight-line prefix followed by a continuation *)
+Lemma sspec_cseq : forall O fuel inl c k (L L1 : nat -> Prop),
+  triple O L c L1 ->
+  (forall s, Inv s -> B L1 s ->
+     match exec O fuel k s with
+     | Norm s' => Inv s' /\ B L s'
+     | Brk s' | Cnt s' => inl = true /\ Inv s' /\ B L s'
+     | Err s' => Inv s' /\ res s' = None
+     | Ret s' => Inv s' /\ BT (fun _ => False) s'
+     | Stuck _ => False
+     | Fuel => True
+     end) ->
+  sspec O fuel inl (cseq c k) L.
+Proof.
+  intros O fuel inl c k L L1 T K s I HB. rewrite cseq_exec. specialize (T s I HB).
+  destruct (run O c s); auto. destruct T. apply K; auto.
+Qed.
+
+Lemma release_res_ok : forall e A c r A1, gen_expr e A = (c, r, A1) -> wfA A ->
+  wfA (release_all (tmp_of r) A1) /\ (forall u, inuse (release_all (tmp_of r) A1) u <-> inuse A u).
+Proof.
+  intros e A c r A1 G W. destruct (proj1 gen_ok e A c r A1 G W) as (W1 & U1 & N1 & _).
+  destruct (release_all_ok (tmp_of r) A1 W1 (nodup_tmp_of r)) as (W2 & U2).
+  { intros t Ht. apply in_tmp_of in Ht. apply U1. auto. }
+  split; auto. intros u. rewrite U2, U1, in_tmp_of. split.
+  - intros [[H|H] H']; tauto.
+  - intros H. split; auto. intro Hr. apply (N1 u Hr); auto.
+Qed.
+
+Definition stmt_ok (st : stmt) : Prop :=
+  forall A c A' inl, gen_stmt st A = (c, A') -> wfA A -> jumps_ok inl st = true ->
+    wfA A' /\ (forall u, inuse A' u <-> inuse A u) /\ forall O fuel, sspec O fuel inl c (inuse A).
+
+Lemma stmt_skip : stmt_ok SSkip.
+Proof.
+  intros A c A' inl H W _. injection H as <- <-. split; auto. split; [tauto|].
+  intros O fuel s I HB. simpl. auto.
+Qed.
+
+Lemma stmt_jump : stmt_ok SBreak /\ stmt_ok SContinue.
+Proof.
+  split; intros A c A' inl H W J; injection H as <- <-; simpl in J; (split; [auto|]); (split; [tauto|]);
+    intros O fuel s I HB; simpl; auto.
+Qed.
+
+Lemma stmt_seq : forall s1 s2, stmt_ok s1 -> stmt_ok s2 -> stmt_ok (SSeq s1 s2).
+Proof.
+  intros s1 s2 IH1 IH2 A c A' inl H W J. simpl in H, J. apply andb_true_iff in J. destruct J as [J1 J2].
+  destruct (gen_stmt s1 A) as [c1 A1] eqn:G1. destruct (gen_stmt s2 A1) as [c2 A2] eqn:G2.
+  injection H as <- <-.
+  destruct (IH1 _ _ _ _ G1 W J1) as (W1 & U1 & S1). destruct (IH2 _ _ _ _ G2 W1 J2) as (W2 & U2 & S2).
+  split; auto. split; [intros u; rewrite U2, U1; tauto|].
+  intros O fuel s I HB. simpl. specialize (S1 O fuel s I HB).
+  destruct (exec O fuel c1 s); simpl; auto. destruct S1.
+  apply (sspec_ext O fuel inl c2 (inuse A1) (inuse A) U1 (S2 O fuel)); auto.
+Qed.
+
+Lemma stmt_assign : forall x e, stmt_ok (SAssign x e).
+Proof.
+  intros x e A c A' inl H W _. simpl in H. destruct (gen_expr e A) as [[c0 r] A1] eqn:G.
+  injection H as <- <-. destruct (release_res_ok _ _ _ _ _ G W) as (W2 & U2).
+  destruct (proj1 gen_ok e A c0 r A1 G W) as (W1 & U1 & N1 & T1).
+  split; auto. split; auto. intros O fuel.
+  eapply sspec_cseq with (L1 := inuse A).
+  - eapply triple_ext; [|eapply triple_app with (L1 := fun u => inuse A u \/ r = RTmp u); [apply T1; auto|]].
+    2:{ apply triple_one. intros s I HB. apply step_ISetLoc; auto. }
+    simpl. intros u. split; [tauto|]. intros Hu. split; auto. intro Hr. apply (N1 u Hr); auto.
+  - intros s I HB. simpl. auto.
+Qed.
+
+Lemma stmt_expr : forall e, stmt_ok (SExpr e).
+Proof.
+  intros e A c A' inl H W _. simpl in H. destruct (gen_expr e A) as [[c0 r] A1] eqn:G.
+  injection H as <- <-. destruct (release_res_ok _ _ _ _ _ G W) as (W2 & U2).
+  destruct (proj1 gen_ok e A c0 r A1 G W) as (W1 & U1 & N1 & T1).
+  split; auto. split; auto. intros O fuel.
+  eapply sspec_cseq with (L1 := inuse A).
+  - eapply triple_ext; [|eapply triple_app with (L1 := fun u => inuse A u \/ r = RTmp u); [apply T1; auto|]].
+    2:{ apply triple_decrefs; [apply nodup_tmp_of|]. intros t Ht. apply in_tmp_of in Ht. auto. }
+    simpl. intros u. rewrite in_tmp_of. split; [tauto|]. intros Hu. split; auto. intro Hr. apply (N1 u Hr); auto.
+  - intros s I HB. simpl. auto.
+Qed.
+
+Lemma stmt_return : forall e, stmt_ok (SReturn e).
+Proof.
+  intros e A c A' inl H W _. simpl in H. destruct (gen_expr e A) as [[c0 r] A1] eqn:G.
+  injection H as <- <-. destruct (release_res_ok _ _ _ _ _ G W) as (W2 & U2).
+  destruct (proj1 gen_ok e A c0 r A1 G W) as (W1 & U1 & N1 & T1).
+  split; auto. split; auto. intros O fuel s I HB.
+  rewrite cseq_exec, run_app. specialize (T1 O (inuse A) (fun u H => H) s I HB).
+  destruct (run O c0 s) as [s1| | | | | |]; simpl; auto. destruct T1 as [I1 B1].
+  pose proof (step_ISetRes O r s1 _ I1 B1) as HS.
+  destruct (step O (ISetRes r) s1) as [s2| | | | | |]; simpl; auto; try (apply HS; intros; auto; fail).
+  destruct HS as [I2 B2]; [intros; auto|].
+  rewrite run_decrefs_eq.
+  destruct (decref_all_ok (inuse_list (release_all (tmp_of r) A1)) s2 _ I2 B2 (inuse_list_nodup _))
+    as (s3 & E3 & I3 & B3 & _).
+  { intros t Ht. apply inuse_list_ok in Ht. apply U2 in Ht. split; auto. intro Hr. apply (N1 t Hr); auto. }
+  rewrite E3. simpl. split; auto. eapply BT_ext; [|eauto]. simpl. intros u. split; [|tauto].
+  intros [[Hu _] Hn]. apply Hn. apply inuse_list_ok. apply U2. destruct Hu; auto. exfalso. tauto.
 Qed.
